@@ -984,7 +984,7 @@ def main():
         fcntl.flock(lockf, fcntl.LOCK_UN)
 
     wall = time.time() - t0
-    if not args.only:
+    if not args.only and not os.environ.get("VERIF_NO_EVIDENCE"):
         write_evidence(pid, tier, seed, hs, results, replays, known_lines, violations, inconclusive, wall)
     for l in known_lines:
         log(l)
